@@ -263,9 +263,7 @@ func (p c05) RunBatch(c *fw.Ctx) {
 		g := gt.NewGen(c.Rng)
 		stmts := g.Program(3+c.Rng.IntN(8), 1+c.Rng.IntN(3))
 		// the reference is only used to discard non-terminating programs
-		ref := gt.NewRef()
-		ref.Run(stmts)
-		if ref.Exhausted || ref.BigInPlace {
+		if !refSessionUsable(stmts) {
 			continue // non-terminating, or in the region of the aliasing finding (C06) where values may even become cyclic
 		}
 		rr := &gt.Renderer{}
